@@ -580,6 +580,12 @@ func c07Run(c *fw.Ctx, i int) {
 		}
 		for _, kind := range []string{"insert", "change", "delete"} {
 			ed, _ := c07Node(spec)
+			// every second tree has been compared before it is edited in place
+			// (whatever a comparison memoises on the nodes is there when the edit comes)
+			if idx%2 == 0 {
+				_ = gedcom.DeepEqual(ed, base)
+				_ = gedcom.DeepEqual(base, ed)
+			}
 			nodes := c07All(ed)
 			target := nodes[idx]
 			switch kind {
